@@ -9,6 +9,7 @@ use std::path::{Path, PathBuf};
 use std::collections::BTreeMap;
 use std::io::{BufWriter, ErrorKind, Read, Write};
 use std::fs::{File, OpenOptions};
+use std::fmt::Debug;
 verus! {
 // 64-bit target assumed (stated in the evidence): usize is 8 bytes
 global size_of usize == 8;
